@@ -491,6 +491,8 @@ def sections(tier):
     chunk = 1 if quick(tier) else 8
     for i in range(0, len(fshapes), chunk):
         S.append((f"filter-{i // chunk}", "checks.c16", "sec_filter", {"shapes": fshapes[i:i + chunk]}))
+    # sides with a large prime factor (13, 17: not 2/3/5/7/11-smooth), where an FFT might be tempted to pad to a "fast" length
+    S.append(("filter-prime-side", "checks.c16", "sec_filter", {"shapes": [(1, 1, 13)] if quick(tier) else [(1, 1, 13), (13, 1, 2), (1, 17, 1), (2, 1, 19)]}))
     S.append(("filter-int16", "checks.c16", "sec_filter", {"shapes": [(2, 3, 4), (3, 2, 3)], "int_input": True}))
     S.append(("filter-after-highpass", "checks.c16", "sec_filter", {"shapes": [(2, 3, 4), (3, 2, 3)], "history": True}))
     return S
